@@ -503,6 +503,7 @@ fn elf(req: &Value) -> R<Value> {
         "function_entries": fe,
         "program_entry": e.program_entry(),
         "symbols": e.symbols().iter().map(|s| json!([s.address(), s.name()])).collect::<Vec<_>>(),
+        "exported_symbols": e.exported_symbols().iter().map(|s| json!([s.address(), s.name()])).collect::<Vec<_>>(),
         "base": e.base_address(),
     }))
 }
